@@ -32,6 +32,9 @@ def run(tier):
     rnd = random.Random(common.seed())
     common.build("plain")
     wd = common.workdir("c14")
+    for cfgname in ("MC_ReaderUnit.cfg", "MC_ReaderStream.cfg"):
+        r = common.tlc("ReaderImpl", cfgname, workers=8, timeout=900)
+        ck.require_ok("ReaderImpl/" + cfgname, r); ck.add_tlc("ReaderImpl/" + cfgname + " (HistoryIndependence)", r, "3 chunks x 3 cells, reads 1..4 and chunk requests in any order, 4 calls")
     files = files_for(rnd)
     cases = []
     for (fname, buf, chunks, stored) in files:
